@@ -168,7 +168,22 @@ def make_selection():
 
 def make_collision():
     def h(sel: int, lazy: bool) -> str:
-        kind = pick(["item/items", "x/xs", "fallback-taken", "no-collision"], sel)
+        kind = pick(["item/items", "x/xs", "fallback-taken", "no-collision", "inherited"], sel)
+        if kind == "inherited":
+            # the colliding scalar attribute is inherited from a spec parent
+            par = spec_class(bootstrap=not lazy)(new_class({"__annotations__": {"item": int}, "item": 1}))
+            child = type("Child", (par,), {})
+            child.__annotations__ = {"items": List[int]}
+            child.items = []
+            child = spec_class(bootstrap=not lazy)(child)
+            o = child(item=1, items=[2])
+            names = sorted(n for n in child.__dict__ if not n.startswith("_") and n.startswith(("with_", "update_", "transform_", "without_")))
+            check("with_items_item" in names and "with_item" not in names, "a singular-name collision with an INHERITED attribute falls back to <attr>_item rather than shadowing the inherited helpers", "C16/collision/inherited/helper-set", lambda: f"{names!r}")
+            r = o.with_item(5)
+            check(r.item == 5 and r.items == [2], "the inherited scalar helpers are not shadowed", "C16/collision/inherited/shadowed", lambda: f"{r!r}")
+            r2 = o.with_items_item(7)
+            check(r2.items == [2, 7], "the fallback element helpers address the collection", "C16/collision/inherited/fallback-broken")
+            return "ok"
         ann = {"item/items": {"item": int, "items": List[int]}, "x/xs": {"xs": List[int], "x": int}, "fallback-taken": {"item": int, "items": List[int], "items_item": int}, "no-collision": {"item": int, "things": List[int]}}[kind]
         body = {"__annotations__": {**ann}}
         try:
@@ -206,6 +221,36 @@ def make_collision():
     return h
 
 
+def make_super():
+    """a subclass defines a method named like a generated helper of its spec parent and calls super(): it must keep its
+    identity also after the helper has been used (lazy descriptors dissolve onto the OWNING class)."""
+
+    def h(sel: int, lazy: bool, spec_sub: bool) -> str:
+        name = pick(["with_x", "update_x", "transform_x", "reset_x", "with_num", "without_num", "update", "transform", "reset"], sel)
+        par = spec_class(bootstrap=not lazy)(new_class({"__annotations__": {"x": int, "nums": List[int]}, "x": 0, "nums": [1]}))
+        calls = []
+
+        def mine(self, *a, **k):
+            calls.append(1)
+            return getattr(super(sub, self), name)(*a, **k)
+
+        sub = type("Sub", (par,), {})
+        setattr(sub, name, mine)
+        if spec_sub:
+            sub.__annotations__ = {"y": int}
+            sub.y = 0
+            sub = spec_class(bootstrap=not lazy)(sub)
+        o = sub()
+        args = {"with_x": (3,), "update_x": (3,), "transform_x": (lambda v: v + 1,), "reset_x": (), "with_num": (5,), "without_num": (1,), "update": (), "transform": (), "reset": ()}[name]
+        for _ in range(2):
+            getattr(o, name)(*args)
+            check(sub.__dict__.get(name) is mine, "a method defined in the class's own body keeps its identity after the inherited helper has been used", f"C16/super/replaced-{name}", lambda: f"{sub.__dict__.get(name)!r}")
+        check(len(calls) == 2, "the user's method is the one that runs", f"C16/super/bypassed-{name}")
+        return "ok"
+
+    return h
+
+
 def obligations(tier):
     obs = []
     T = 300 if tier == "quick" else 900
@@ -217,5 +262,6 @@ def obligations(tier):
             warm = [(i, sw, lz) for i in range(0, n, 4) for sw in (0, 4) for lz in (False, True)]
             obs.append(Ob(f"C16.occupied.{tname}.{kind or 'none'}", make_occupied(tname, kind), warm, f"template {tname}: the class body defines {'one of the ' + str(n) + ' generated names itself as a ' + kind if kind else 'no generated name'}; which name, the init/repr/eq switch combination (5) and lazy/eager are symbolic selectors; identities checked after decoration and after first use of every helper. Selector-only: finite space exhausted through the solver, no numeric quantity.", expect={"ok"}, timeout=T))
     obs.append(Ob("C16.selection", make_selection(), [(s, lz) for s in range(5) for lz in (False, True)], "attrs / attrs_typed / attrs_skip selections x lazy/eager (selector-only)", expect={"ok"}, timeout=T))
-    obs.append(Ob("C16.collision", make_collision(), [(s, lz) for s in range(4) for lz in (False, True)], "attribute-name pairs whose singular/plural forms collide, fallback free or taken, x lazy/eager (selector-only)", expect={"ok", "RuntimeError"}, timeout=T))
+    obs.append(Ob("C16.super", make_super(), [(s_, lz, sp) for s_ in range(9) for lz in (False, True) for sp in (False, True)], "plain or spec subclass defining a method named like one of 9 generated helpers of its spec parent and delegating to super(); called twice; lazy/eager (selector-only)", expect={"ok"}, timeout=T))
+    obs.append(Ob("C16.collision", make_collision(), [(s, lz) for s in range(5) for lz in (False, True)], "attribute-name pairs whose singular/plural forms collide (same class, or scalar inherited from a spec parent), fallback free or taken, x lazy/eager (selector-only)", expect={"ok", "RuntimeError"}, timeout=T))
     return obs
